@@ -43,7 +43,7 @@ class C04(PoolCheck):
     }
 
     def ref_ops(self, entry, doc):
-        return [{'api': 'iter_errors'}, {'api': 'decode_lax'}]
+        return [{'api': 'iter_errors'}, {'api': 'decode_lax'}, {'api': 'validate'}, {'api': 'decode'}]
 
     def n_cases(self, tier):
         return 5000 if tier == 'quick' else 150000
@@ -129,12 +129,24 @@ class C04(PoolCheck):
 
         ref_errs = self.ref(case['entry'], case['doc'], {'api': 'iter_errors'})
         ref_dec = self.ref(case['entry'], case['doc'], {'api': 'decode_lax'})
+        self.ref_strict = {'validate': self.ref(case['entry'], case['doc'], {'api': 'validate'}),
+                           'decode': self.ref(case['entry'], case['doc'], {'api': 'decode'})}
         violations = []
+        # sentence 1 on the reference itself (channel independent: an input-level disagreement
+        # between entry points is reported once, with where='reference')
+        rsig = self.reference_consistency(ref_errs, ref_dec, self.ref_strict)
+        if rsig is not None:
+            violations.append({'signature': rsig, 'detail': {
+                'entry': case['entry'], 'doc': doc.name, 'ref_errors': short(ref_errs, 500),
+                'ref_decode_errors': short(ref_dec['v'][1] if ref_dec['k'] == 'ok' else ref_dec, 500),
+                'ref_validate': short(self.ref_strict['validate'], 400),
+                'ref_decode_strict': short(self.ref_strict['decode'], 400)}})
         if src['ch'] in ('etree', 'element'):
             # parsed trees carry no prefix information: names in messages, paths and data keys
             # are spelled differently by design. Compare class/element sequences; data only
             # for documents without namespaces.
             ref_errs, ref_dec = tree_view(ref_errs), tree_view(ref_dec, data.find(b'xmlns') < 0)
+            self.ref_strict = {k: tree_view(v, data.find(b'xmlns') < 0) for k, v in self.ref_strict.items()}
             got = [tree_view(g, data.find(b'xmlns') < 0) for g in got]
         for k, (ep, g) in enumerate(zip(case['eps'], got)):
             sig = self.judge(ep, g, ref_errs, ref_dec)
@@ -198,19 +210,11 @@ class C04(PoolCheck):
                         base['diff'] = d
                     return base
             else:
-                if not E:
-                    if g['k'] != 'ok':
-                        base.update(clause='raise-on-valid', cls=g['cls'])
-                        return base
-                else:
-                    if g['k'] != 'raise':
-                        base.update(clause='no-raise-on-invalid', first=canon.template(E[0][1]))
-                        return base
-                    if g.get('verr') != E[0]:
-                        base.update(clause='strict-not-first-lax', cls=g['cls'],
-                                    first=canon.template(E[0][1]),
-                                    raised=canon.template((g.get('verr') or [None, g.get('msg', '')])[1]))
-                        return base
+                want = self.ref_strict['validate']
+                if g != want:
+                    base.update(clause='strict-differs-from-reference', got=g.get('cls', g['k']),
+                                want=want.get('cls', want['k']))
+                    return base
             return None
         if ref_dec['k'] != 'ok':
             return None
@@ -227,25 +231,36 @@ class C04(PoolCheck):
                 return base
             return None
         # strict decode / to_dict
-        if not DE:
-            if g['k'] != 'ok':
-                base.update(clause='raise-on-valid', cls=g['cls'])
-                return base
-            if g['v'] != D:
-                base.update(clause='data')
-                return base
-        else:
-            if g['k'] != 'raise':
-                base.update(clause='no-raise-on-invalid', first=canon.template(DE[0][1]))
-                return base
-            if g.get('verr') != DE[0]:
-                base.update(clause='strict-not-first-lax', cls=g['cls'], first=canon.template(DE[0][1]),
-                            raised=canon.template((g.get('verr') or [None, g.get('msg', '')])[1]))
-                return base
-        # cross entry point: verdicts of validation and decoding agree
-        if E is not None and bool(E) != bool(DE):
-            base.update(clause='validation-vs-decode-verdict', errors=len(E), decode_errors=len(DE))
+        want = self.ref_strict['decode']
+        if g != want:
+            base.update(clause='strict-differs-from-reference', got=g.get('cls', g['k']),
+                        want=want.get('cls', want['k']))
+            if g['k'] == 'ok' and want['k'] == 'ok':
+                base['clause'] = 'data'
             return base
+        return None
+
+    def reference_consistency(self, ref_errs, ref_dec, strict):
+        if ref_errs['k'] != 'ok' or ref_dec['k'] != 'ok':
+            return None
+        E, (D, DE) = ref_errs['v'], ref_dec['v']
+        base = {'where': 'reference'}
+        if bool(E) != bool(DE):
+            return dict(base, clause='validation-vs-decode-verdict', errors=min(len(E), 3), decode_errors=min(len(DE), 3))
+        for name, errs in (('validate', E), ('decode', DE)):
+            g = strict[name]
+            if not errs:
+                if g['k'] != 'ok':
+                    return dict(base, clause='raise-on-valid', ep=name, cls=g.get('cls'))
+                if name == 'decode' and g['v'] != D:
+                    return dict(base, clause='strict-data-differs-from-lax-data')
+            else:
+                if g['k'] != 'raise':
+                    return dict(base, clause='no-raise-on-invalid', ep=name, first=canon.template(errs[0][1]))
+                if g.get('verr') != errs[0]:
+                    return dict(base, clause='strict-not-first-lax', ep=name, cls=g['cls'],
+                                first=canon.template(errs[0][1]),
+                                raised=canon.template((g.get('verr') or [None, g.get('msg', '')])[1]))
         return None
 
     def shrink(self, case):
